@@ -128,4 +128,31 @@ Section Tree.
     - rewrite (proj1 (HT _ _ _ Hl)). cbn. congruence.
     - apply in_flat_map in Hy as [d [Hd Hy]]. apply (def_objects_kinds d y (proj1 (HT _ _ _ Hd)) Hy).
   Qed.
+  Lemma libs_objects_inst n y : In y (flat_map (lib_objects s0) (kids s0 RLibs n)) -> kind_of s0 y = Some KInstance ->
+    exists l d, In l (kids s0 RLibs n) /\ In d (kids s0 RDefs l) /\ In y (kids s0 RChildren d).
+  Proof.
+    intros H Hk. apply in_flat_map in H as [l [Hl [<-|Hy]]].
+    - rewrite (proj1 (HT _ _ _ Hl)) in Hk. discriminate.
+    - apply in_flat_map in Hy as [d [Hd Hy]]. exists l, d. split; [exact Hl|]. split; [exact Hd|].
+      apply def_objects_cases in Hy as [->|[[p [Hp [->|Hy]]]|[[p [Hp [->|Hy]]]|Hy]]]; [| | | | |exact Hy].
+      + rewrite (proj1 (HT _ _ _ Hd)) in Hk. discriminate.
+      + rewrite (proj1 (HT _ _ _ Hp)) in Hk. discriminate.
+      + rewrite (proj1 (HT _ _ _ Hy)) in Hk. discriminate.
+      + rewrite (proj1 (HT _ _ _ Hp)) in Hk. discriminate.
+      + rewrite (proj1 (HT _ _ _ Hy)) in Hk. discriminate.
+  Qed.
+
+  Lemma libs_objects_def n y : In y (flat_map (lib_objects s0) (kids s0 RLibs n)) -> kind_of s0 y = Some KDefinition ->
+    exists l, In l (kids s0 RLibs n) /\ In y (kids s0 RDefs l).
+  Proof.
+    intros H Hk. apply in_flat_map in H as [l [Hl [<-|Hy]]].
+    - rewrite (proj1 (HT _ _ _ Hl)) in Hk. discriminate.
+    - apply in_flat_map in Hy as [d [Hd Hy]]. exists l. split; [exact Hl|].
+      destruct (def_objects_kinds d y (proj1 (HT _ _ _ Hd)) Hy) as [_ [_ He]]. rewrite (He Hk). exact Hd.
+  Qed.
+
+  Lemma libs_objects_of_def n l d : In l (kids s0 RLibs n) -> In d (kids s0 RDefs l) -> In d (flat_map (lib_objects s0) (kids s0 RLibs n)).
+  Proof.
+    intros Hl Hd. apply in_flat_map. exists l. split; [exact Hl|]. right. apply in_flat_map. exists d. split; [exact Hd|left; reflexivity].
+  Qed.
 End Tree.
